@@ -5,6 +5,7 @@ import Fundraising.Proofs.VestingLemmas
 import Fundraising.Proofs.MatchLemmas
 import Fundraising.Proofs.EscrowProofs
 import Fundraising.Proofs.TotalSimInst
+import Fundraising.Proofs.TotalBlock
 /-
   C07 — block processing never fails, and never hides a failure.
   STATEMENTS ARE FIXED (cited by Props/C07.lean).
@@ -20,7 +21,10 @@ def xferCount (effs : List Eff) : Nat := (effs.filter (fun e => !e.isHook)).leng
 theorem beginBlock_ok (st : State) (t : Int) (hwf : WF st.core) (hnn : BankNonneg st.core)
     (hcov : AllCovered st.core) (hf : st.ctl.failhook = none) (hk : st.ctl.fault = none) :
     (step st (.block t)).1.res = .ok := by
-  sorry
+  obtain ⟨c', hc'⟩ := beginBlock_total st.core st.ctl t hwf hnn hcov hf hk
+  simp only [step]
+  unfold runAtomic
+  simp only [hc']
 
 /-- **a failing bank transfer is reported.**  If the block, run without fault, makes more
     than `k` bank calls, then with the `k`-th call failing the block reports an error
